@@ -21,6 +21,7 @@ EXPLANATION = (
     "O6 tier table of struct_cmp: variables, then numbers, then the rest, each type tier returning -1 when only the first argument is "
     "of the type and +1 when only the second is; float before an equal integer; compound order arity, then name, then arguments. "
     "Agreement with Yap/SWI for every pair of terms (collation of quoted atoms, variable ordering) is value-level and not decided."
+    " Added after seed round 8: O7 no builtin registration closes over a loop variable."
 )
 TECHNIQUE = "static analysis: CFG data-flow (three-way-result typestate), operator/registration table agreement"
 
